@@ -60,6 +60,7 @@ macro_rules
     | (refine TreeOk.insertFormatting ?_ _ _ ?_ ?_ <;> first | tree_ok $[$n]? | pn $[$n]? | fmt_name $[$n]?)
     | (refine TreeOk.reconstructAfe (fmtOk_PNoCol _) ?_; tree_ok $[$n]?)
     | (refine TreeOk.adoptionAgency (fmtOk_PNoCol _) _ _ ?_; tree_ok $[$n]?)
+    | (refine TreeOk.pushEl' _ ?_ ?_ <;> first | tree_ok $[$n]? | assumption)
     | (refine TreeOk.pop' ?_; tree_ok $[$n]?)
     | (refine TreeOk.popToRoot' ?_; tree_ok $[$n]?)
     | (refine TreeOk.popUntilNamed' _ ?_; tree_ok $[$n]?)
